@@ -12,6 +12,8 @@ from ..astutil import (call_name, calls_in, const_str, dotted, kwarg, literal,
 from ..cfg import CFG
 from ..guards import conditions_at
 from ..loader import AnchorError, Undecided
+from ..keypresence import success_atom
+from ..symres import Resolver
 
 EXPLANATION = (
     "nanite's part of loading and mapping (afmformats does the rest): (R1) "
@@ -69,6 +71,13 @@ def r1_indentation_everywhere(ctx):
     ok = isinstance(cls, ast.Dict) and cls.keys and all(
         norm(v) == "Indentation" for v in cls.values) and \
         "force-distance" in [const_str(k) for k in cls.keys]
+    if isinstance(cls, ast.DictComp) and len(cls.generators) == 1:
+        g = cls.generators[0]
+        from ..symres import Resolver
+        keys = literal(Resolver(gk).resolve(g.iter))
+        ok = isinstance(keys, (list, tuple)) and "force-distance" in keys \
+            and norm(cls.key) == norm(g.target) and \
+            norm(cls.value) == "Indentation" and not g.ifs
     ctx.check(ok, table, "all modalities map to Indentation",
               "afmformats is not told to build Indentation objects for "
               "force-distance data: loading returns plain AFMForceDistance "
@@ -215,12 +224,10 @@ def r3_map_features(ctx):
             if isinstance(n, ast.Attribute) and n.attr == "value" and \
                     isinstance(n.value, ast.Subscript):
                 uses.append(n)
+        Rf = Resolver(f)
         for n in uses:
             conds = conditions_at(n)
-            ok = any(a.pol and a.text in (
-                f"{arg}.fit_properties.get('success', False)",
-                f"{arg}.fit_properties.get('success')")
-                for a in conds)
+            ok = any(a.pol and success_atom(a, Rf) for a in conds)
             if n not in pf_reads and ok:
                 continue
             if n in pf_reads and isinstance(n, ast.Call):
@@ -274,13 +281,16 @@ def r3_map_features(ctx):
                   f"fitted '{key}' (in {base}) by {factor} instead of "
                   f"{want}")
         # else branch: warn + NaN
-        nan_assign = [s for s in ast.walk(f) if isinstance(s, ast.Assign)
+        nan_assign = [s for s in ast.walk(f)
+                      if isinstance(s, (ast.Assign, ast.Return))
+                      and s.value is not None
                       and norm(s.value) in ("np.nan", "numpy.nan")]
         warns = [c for c in calls_in(f) if call_name(c) == "warnings.warn"]
         ok = False
         for s in nan_assign:
             conds = conditions_at(s)
-            if any((not a.pol) and "success" in a.text for a in conds):
+            if any((not a.pol) and success_atom(a, Rf) for a in conds) or \
+                    any((not a.pol) and "success" in a.text for a in conds):
                 ok = True
         ctx.check(ok and bool(warns) and all(
             "DataMissingWarning" in norm(w) for w in warns), f,
@@ -289,8 +299,11 @@ def r3_map_features(ctx):
             "unfitted curve")
         rets = [r for r in walk_no_nested(f, False)
                 if isinstance(r, ast.Return)]
-        ctx.check(len(rets) == 1 and norm(rets[0].value) == "value", f,
-                  f"{f.name} returns the computed value",
+        good = all(r.value is not None and (
+            norm(r.value) in ("value", "np.nan", "numpy.nan")
+            or any(x is valnode for x in ast.walk(r.value))) for r in rets)
+        ctx.check(bool(rets) and good, f,
+                  f"{f.name} returns the computed value or NaN",
                   "feature returns something else")
 
 
@@ -306,13 +319,16 @@ def r4_rating_freshness(ctx):
     ctx.floor("readers of the cached rating value", len(readers), 2)
     for m, q, f, n in readers:
         recv = norm(n.value)
+        Rr = Resolver(f)
         # a comparison of recv[0] with a hash must guard this read
         conds = conditions_at(n)
         ok = False
         for a in conds:
             for c in ast.walk(a.node):
-                if isinstance(c, ast.Compare) and norm(c.left) == \
-                        f"{recv}[0]" and len(c.ops) == 1:
+                if isinstance(c, ast.Compare) and len(c.ops) == 1 and (
+                        norm(c.left) == f"{recv}[0]" or (
+                            hasattr(c.left, "_parent")
+                            and Rr.text(c.left) == f"{recv}[0]")):
                     rhs = norm(c.comparators[0])
                     op = type(c.ops[0]).__name__
                     fresh = "hash" in rhs
@@ -357,6 +373,11 @@ def r5_progress_and_enum(ctx):
             mo = kwarg(c, "meta_override")
             ctx.check(mo is not None and norm(mo) == "meta_override", c,
                       "meta_override forwarded", "metadata override dropped")
+    if cb is not None and isinstance(cb, ast.Name):
+        from ..symres import Resolver
+        v = Resolver(ld).reaching_value(cb)
+        if v is not None:
+            cb = v
     if cb is None:
         ctx.fail(lp, "callback forwarded", "progress callback not forwarded")
     else:
